@@ -74,6 +74,48 @@ fn tok_u16(seed: u64, n: usize, out: &mut dyn Write) {
     }
 }
 
+pub fn chain_obs(len: usize, w: i64, c: i64) -> String {
+    let (len, w, c) = (&len, &w, &c);
+    let lex = format!("a,0,0,{w},A\n");
+    let matrix = format!("1 1\n0 0 {c}\n");
+    let obs = crate::wire::guarded(|| {
+        let dict = vibrato::SystemDictionaryBuilder::from_readers(lex.as_bytes(), matrix.as_bytes(), &b"DEFAULT 0 1 0\n"[..], &b"DEFAULT,0,0,1000,unk\n"[..]).ok()?;
+        let tokenizer = vibrato::Tokenizer::new(dict);
+        let mut worker = tokenizer.new_worker();
+        worker.reset_sentence("a".repeat(*len));
+        worker.tokenize();
+        let nt = worker.num_tokens();
+        let mut ok = true;
+        let mut last = 0i64;
+        for i in 0..nt {
+            let t = worker.token(i);
+            last = t.total_cost() as i64;
+            ok &= t.surface() == "a" && last == (i as i64 + 1) * (w + c);
+        }
+        Some(format!("ok {nt} {last} {}", ok as u8))
+    });
+    let obs = match obs {
+        None => "panic".to_string(),
+        Some(None) => "err".to_string(),
+        Some(Some(x)) => x,
+    };
+    obs
+}
+
+/// Stream `tokchain` (C02, "costs within 32-bit range"): a sentence of `len` copies of the only word `a` (word cost `w`,
+/// connection cost `c` everywhere): one segmentation, accumulated costs up to just below 2^31.
+/// `tokchain <id> <len> <w> <c> IMPL ok <tokens> <total_cost of the last token> <every total_cost is (i+1)*(w+c)> | panic`
+fn tok_chain(seed: u64, n: usize, out: &mut dyn Write) {
+    let fam: [(usize, i64, i64); 4] = [(40000, 32767, 1), (65000, 32767, 255), (30000, -32768, -300), (12, 5, -7)];
+    for (k, (len, w, c)) in fam.iter().enumerate() {
+        if k >= n {
+            break;
+        }
+        let obs = chain_obs(*len, *w, *c);
+        writeln!(out, "tokchain {seed}.c{k} {len} {w} {c} IMPL {obs}").unwrap();
+    }
+}
+
 fn tok_profile(profile: &str, seed: u64, n: usize, out: &mut dyn Write) {
     if profile == "u16" {
         return tok_u16(seed, n, out);
@@ -652,6 +694,11 @@ fn main() {
             let seed: u64 = args[2].parse().unwrap();
             let n: usize = args[3].parse().unwrap();
             trainnew::run(seed, n, &mut out);
+        }
+        "tokchain" => {
+            let seed: u64 = args[2].parse().unwrap();
+            let n: usize = args[3].parse().unwrap();
+            tok_chain(seed, n, &mut out);
         }
         "mapimg" => {
             let seed: u64 = args[2].parse().unwrap();
